@@ -50,10 +50,45 @@ def targets():
            'quaternion.slerp(p, q, [t], threshold=thr)'),
         mk('slerp_I', Q + ['t', 'thr'], lambda A, v: A.filters.aqua.slerp_I(v.vec(*Q), v['t'], v['thr']),
            'ahrs.filters.aqua.slerp_I(q, ratio=t, t=thr)'),
-    ]
+    ] + [mk(nm, *_inst(kind, mask), doc=f'{kind} on QuaternionArray(rows, versors=False), N={len(mask)}, NaN mask {mask}')
+         for nm, kind, mask in INSTANCES]
 
 
-STAGES = [['C12_math.v', 'C12_lists_thm.v'], ['C12_gen.v'], ['C12_lists_R.v'], ['C12.v']]
+def _row_names(i):
+    return [f'r{i}{c}' for c in 'wxyz']
+
+
+def _inst(kind, mask):
+    """(input names, traced function) of a small fixed-N instance of the in-place list code with symbolic valid rows and a
+    CONCRETE NaN mask: the rows are written as real NaN floats into the traced QuaternionArray after construction"""
+    N = len(mask)
+    names = sum((_row_names(i) for i in range(N) if not mask[i]), [])
+
+    def f(A, v):
+        first = [i for i in range(N) if not mask[i]][0]
+        rows = [[v[n] for n in _row_names(i if not mask[i] else first)] for i in range(N)]
+        Qa = A.QuaternionArray(symnp.array(rows), versors=False)
+        for i in range(N):
+            if mask[i]:
+                Qa[i] = np.nan
+        if kind == 'remove_jumps':
+            Qa.remove_jumps()
+            return Qa.array
+        if kind == 'q_correct':
+            return A.common.orientation.q_correct(Qa.array)
+        if kind == 'default':          # the default in-place mode, read back through .array AND through the object's own buffer
+            Qa.slerp_nan()
+            return [Qa.array, symnp.asarray(Qa)]
+        return Qa.slerp_nan(inplace=False)
+    return names, f
+
+
+INSTANCES = [('rj3', 'remove_jumps', [0, 0, 0]), ('qc3', 'q_correct', [0, 0, 0]), ('rj4', 'remove_jumps', [0, 0, 0, 0]),
+             ('sn_010', 'copy', [0, 1, 0]), ('sn_0110', 'copy', [0, 1, 1, 0]), ('sn_0010', 'copy', [0, 0, 1, 0]),
+             ('sn_01010', 'copy', [0, 1, 0, 1, 0]), ('sni_0110', 'default', [0, 1, 1, 0])]
+
+
+STAGES = [['C12_math.v', 'C12_lists_thm.v'], ['C12_gen.v'], ['C12_lists_R.v']]
 
 
 # ------------------------------------------------------------------------------------------
